@@ -3032,6 +3032,10 @@ namespace detail {
                     {
                         end = val.size();
                     }
+                    if (step > end)
+                    {
+                        step = end > 0 ? end : 1; // a larger step selects the same elements and cannot overflow i
+                    }
                     for (int64_t i = start; i < end; i += step)
                     {
                         reference j = this->apply_expressions(val.at(static_cast<std::size_t>(i)), context, ec);
@@ -3050,6 +3054,10 @@ namespace detail {
                     if (end < -1)
                     {
                         end = -1;
+                    }
+                    if (step < -(start + 1) && start >= 0)
+                    {
+                        step = -(start + 1); // a larger step selects the same elements and cannot overflow i
                     }
                     for (int64_t i = start; i > end; i += step)
                     {
